@@ -106,8 +106,9 @@ def run_tlc(module, consts, invariants=(), name=None, workers=8, timeout=1800, e
     if p.returncode != 0 or violated or not (m or simulate):
         # a violated model invariant is a defect of the MODEL run (design-level finding), never a
         # VIOLATION of the code: report as tool error with the tail of the log
-        tail = "\n".join(l for l in txt_tail.splitlines() if not l.startswith(("Parsing", "Semantic", "Linting")))[-3000:]
-        raise ToolError(f"TLC failed on {name} (rc={p.returncode}):\n{tail}")
+        errs = "\n".join(l for l in txt_tail.splitlines() if l.startswith("Error:"))[:600]
+        tail = "\n".join(l for l in txt_tail.splitlines() if not l.startswith(("Parsing", "Semantic", "Linting")))[-2500:]
+        raise ToolError(f"TLC failed on {name} (rc={p.returncode}):\n{errs}\n...\n{tail}")
     states = int(m.group(1)) if m else 0
     distinct = int(m.group(2)) if m else 0
     log(f"TLC {name}: {distinct} distinct / {states} generated in {wall:.0f}s")
